@@ -8,7 +8,8 @@ Proof. unfold gstr_eqb, list_eqb. induction a as [|x a IH]; cbn [forallb2]; [ref
 (* ------------------------------------------------------------ the escaper --- *)
 Lemma kc_not_special c : kc_char c = false -> esc_special c = false.
 Proof.
-  unfold kc_char, esc_special. intros H. repeat (apply orb_false_iff in H; destruct H as [H ?]).
+  unfold kc_char. intros H. apply orb_false_iff in H. destruct H as [H _].
+  unfold ent_char in H. unfold esc_special. repeat (apply orb_false_iff in H; destruct H as [H ?]).
   repeat match goal with E : (_ =? _) = false |- _ => rewrite E; clear E end. reflexivity.
 Qed.
 
@@ -46,24 +47,96 @@ Proof.
 Qed.
 
 (* ------------------------------------------------ JS single-quoted literal -- *)
-Lemma js_sq_f_plain v : forall fuel rest, kc v = false -> (length v < fuel)%nat ->
-  js_sq_f fuel (v ++ 39 :: rest) = JOk v rest.
+(* characters that are plain inside a single-quoted literal placed in a script
+   element: not the quote, not a backslash, not LF / CR, not less-than *)
+Definition lit_plain (c : cp) : bool :=
+  negb ((c =? 39) || (c =? 92) || (c =? 10) || (c =? 13) || (c =? 60)).
+(* the string has no backslash and no raw LF / CR (outside known class 3) *)
+Definition bs_free (s : str) : bool := negb (existsb bs_char s).
+
+Lemma lit_plain_inv c : lit_plain c = true ->
+  (c =? 39) = false /\ (c =? 92) = false /\ (c =? 10) = false /\ (c =? 13) = false /\ (c =? 60) = false.
 Proof.
-  induction v as [|c v IH]; intros fuel rest K L.
-  - destruct fuel as [|f]; [inversion L|]. reflexivity.
-  - destruct fuel as [|f]; [inversion L|]. unfold kc in K. cbn [existsb] in K.
-    apply orb_false_iff in K. destruct K as [Kc Kv].
-    unfold kc_char in Kc. repeat (apply orb_false_iff in Kc; destruct Kc as [Kc ?]).
-    cbn [app js_sq_f].
-    repeat match goal with H : (_ =? _) = false |- _ => rewrite H end.
-    cbn [orb andb]. rewrite IH; [reflexivity|exact Kv|cbn [length] in L; apply Nat.succ_lt_mono; exact L].
+  unfold lit_plain. intros H. apply negb_true_iff in H.
+  repeat (apply orb_false_iff in H; destruct H as [H ?]). repeat split; assumption.
 Qed.
+
+Lemma esc_char_lit_plain c : bs_char c = false -> forallb lit_plain (esc_char c) = true.
+Proof.
+  intros B. unfold esc_char. destruct (esc_special c) eqn:E.
+  - unfold esc_special in E.
+    repeat (apply orb_true_iff in E; destruct E as [E|E]); apply N.eqb_eq in E; subst; reflexivity.
+  - cbn [forallb]. rewrite andb_true_r. unfold esc_special in E. unfold bs_char in B. unfold lit_plain.
+    repeat (apply orb_false_iff in E; destruct E as [E ?]).
+    repeat (apply orb_false_iff in B; destruct B as [B ?]).
+    repeat match goal with H : (_ =? _) = false |- _ => rewrite H; clear H end. reflexivity.
+Qed.
+
+Lemma html_escape_lit_plain v : bs_free v = true -> forallb lit_plain (html_escape v) = true.
+Proof.
+  unfold bs_free. induction v as [|c v IH]; [reflexivity|]. cbn [existsb]. intros H.
+  apply negb_true_iff in H. apply orb_false_iff in H. destruct H as [Hc Hv].
+  unfold html_escape. cbn [flat_map]. rewrite forallb_app, (esc_char_lit_plain c Hc).
+  apply IH. rewrite Hv. reflexivity.
+Qed.
+
+(* a run of plain characters followed by a quote is one whole literal: it ends
+   at that quote and nowhere else, and its value is the run itself *)
+Lemma js_sq_f_lit w : forall fuel rest, forallb lit_plain w = true -> (length w < fuel)%nat ->
+  js_sq_f fuel (w ++ 39 :: rest) = JOk w rest.
+Proof.
+  induction w as [|c w IH]; intros fuel rest K L.
+  - destruct fuel as [|f]; [inversion L|]. reflexivity.
+  - destruct fuel as [|f]; [inversion L|]. cbn [forallb] in K.
+    apply andb_true_iff in K. destruct K as [Kc Kw].
+    destruct (lit_plain_inv c Kc) as (H1 & H2 & H3 & H4 & H5).
+    cbn [app js_sq_f]. rewrite H1, H2, H3, H4, H5. cbn [orb andb].
+    rewrite IH; [reflexivity|exact Kw|cbn [length] in L; apply Nat.succ_lt_mono; exact L].
+Qed.
+
+(* the same run for the skeleton lexer: inside the literal nothing is emitted
+   and the lexer is back in code state right after the closing quote *)
+Lemma js_skel_lit w rest : forallb lit_plain w = true ->
+  js_skel 1 (w ++ 39 :: rest) = ocons 39 (js_skel 0 rest).
+Proof.
+  induction w as [|c w IH]; intros K.
+  - reflexivity.
+  - cbn [forallb] in K. apply andb_true_iff in K. destruct K as [Kc Kw].
+    destruct (lit_plain_inv c Kc) as (H1 & H2 & H3 & H4 & H5).
+    cbn [app]. rewrite <- (IH Kw). cbn [js_skel]. cbn [N.eqb Pos.eqb negb].
+    rewrite H1, H2, H3, H4, H5. reflexivity.
+Qed.
+
+Lemma kc_bs_free v : kc v = false -> bs_free v = true.
+Proof.
+  unfold kc, bs_free. induction v as [|c v IH]; [reflexivity|]. cbn [existsb]. intros H.
+  apply orb_false_iff in H. destruct H as [Hc Hv]. unfold kc_char in Hc.
+  apply orb_false_iff in Hc. destruct Hc as [_ Hb]. rewrite Hb. cbn [orb]. apply IH, Hv.
+Qed.
+
+(* every script hole, for ALL values without backslash / LF / CR: the literal
+   ends exactly at the template's closing quote *)
+Lemma js_literal_closed v rest : bs_free v = true ->
+  js_sq (html_escape v ++ 39 :: rest) = JOk (html_escape v) rest.
+Proof.
+  intros B. unfold js_sq. apply js_sq_f_lit; [apply html_escape_lit_plain, B|].
+  rewrite app_length. cbn [length]. apply Nat.lt_succ_r, Nat.le_add_r.
+Qed.
+
+(* ... and the page skeleton does not depend on the value *)
+Lemma js_skel_hole v rest : bs_free v = true ->
+  js_skel 1 (html_escape v ++ 39 :: rest) = ocons 39 (js_skel 0 rest).
+Proof. intros B. apply js_skel_lit, html_escape_lit_plain, B. Qed.
+
+Lemma js_skel_hole_neutral v rest : bs_free v = true ->
+  js_skel 1 (html_escape v ++ 39 :: rest) = js_skel 1 (html_escape NEUTRAL ++ 39 :: rest).
+Proof. intros B. rewrite (js_skel_hole v rest B). symmetry. apply js_skel_hole. reflexivity. Qed.
 
 Lemma js_value_exact v rest : kc v = false ->
   js_sq (html_escape v ++ 39 :: rest) = JOk v rest.
 Proof.
-  intros K. rewrite html_escape_plain by exact K. unfold js_sq. apply js_sq_f_plain; [exact K|].
-  rewrite app_length. cbn [length]. apply Nat.lt_succ_r, Nat.le_add_r.
+  intros K. rewrite (js_literal_closed v rest (kc_bs_free v K)).
+  rewrite html_escape_plain by exact K. reflexivity.
 Qed.
 
 (* -------------------------------------------------------------- <title> ----- *)
@@ -147,23 +220,40 @@ Definition cfg0 (e : str) : config :=
   {| c_endpoint := e; c_sub := None; c_version := default_version_gen; c_headers := None;
      c_ws := None; c_title := None; c_cred := 0 |}.
 
-(* a&b is shown to the script as a&#38;b *)
+Definition model_ctx_safe (cfg : config) : bool := ctx_safe (render cfg) (render (neutral_cfg cfg)).
+
+(* a&b is shown to the script as a&#38;b — not verbatim, but inside its literal *)
 Lemma refuted_entity :
   js_sq (html_escape [97; 38; 98] ++ [39]) = JOk [97; 38; 35; 51; 56; 59; 98] [] /\
-  page_ok (cfg0 [47; 97; 38; 98]) (render (cfg0 [47; 97; 38; 98])) = false.
-Proof. split; vm_compute; reflexivity. Qed.
+  page_ok (cfg0 [47; 97; 38; 98]) (render (cfg0 [47; 97; 38; 98])) = false /\
+  model_ctx_safe (cfg0 [47; 97; 38; 98]) = true /\ known_class (cfg0 [47; 97; 38; 98]) = 1.
+Proof. repeat split; vm_compute; reflexivity. Qed.
 
 (* a trailing backslash swallows the template's closing quote: the literal runs
-   on into the page text up to the next quote *)
+   on into the page text up to the next quote — the value ends its context *)
 Lemma refuted_backslash :
   js_sq (html_escape [92] ++ 39 :: [41; 44; 39; 120]) = JOk [39; 41; 44] [120] /\
-  page_ok (cfg0 [47; 97; 92]) (render (cfg0 [47; 97; 92])) = false.
-Proof. split; vm_compute; reflexivity. Qed.
+  page_ok (cfg0 [47; 97; 92]) (render (cfg0 [47; 97; 92])) = false /\
+  model_ctx_safe (cfg0 [47; 97; 92]) = false /\ known_class (cfg0 [47; 97; 92]) = 3.
+Proof. repeat split; vm_compute; reflexivity. Qed.
 
 Lemma refuted_newline :
   js_sq (html_escape [97; 10; 98] ++ [39]) = JErr 2 /\
-  page_ok (cfg0 [97; 10; 98]) (render (cfg0 [97; 10; 98])) = false.
-Proof. split; vm_compute; reflexivity. Qed.
+  page_ok (cfg0 [97; 10; 98]) (render (cfg0 [97; 10; 98])) = false /\
+  model_ctx_safe (cfg0 [97; 10; 98]) = false /\ known_class (cfg0 [97; 10; 98]) = 3.
+Proof. repeat split; vm_compute; reflexivity. Qed.
+
+(* the judgement is not vacuous: a page on which a quote or </script arrives
+   raw in the endpoint literal (what the escaper prevents) is not context-safe,
+   whatever the template *)
+Definition raw_page (e : str) : str :=
+  S_MODULE ++ [117; 40; 39] ++ e ++ [39; 41; 59; 10; 60; 47; 115; 99; 114; 105; 112; 116; 62].  (* u('e');\n</script> *)
+Lemma ctx_safe_detects :
+  ctx_safe (raw_page [47; 103; 63; 97; 38; 98]) (raw_page NEUTRAL) = true /\
+  ctx_safe (raw_page [47; 103; 63; 39; 59; 97; 40; 41; 59; 47; 47]) (raw_page NEUTRAL) = false /\
+  ctx_safe (raw_page [47; 103; 63; 39; 43; 39]) (raw_page NEUTRAL) = false /\
+  ctx_safe (raw_page [47; 103; 63; 60; 47; 115; 99; 114; 105; 112; 116; 62]) (raw_page NEUTRAL) = false.
+Proof. repeat split; vm_compute; reflexivity. Qed.
 
 (* headers and connection parameters together: no comma between the two members *)
 Definition cfg_both_w : config :=
@@ -171,7 +261,7 @@ Definition cfg_both_w : config :=
      c_headers := Some [([97], [98])]; c_ws := Some [([99], [100])]; c_title := None; c_cred := 0 |}.
 Lemma refuted_missing_comma :
   values_ok cfg_both_w (render cfg_both_w) = true /\ options_ok (render cfg_both_w) = false /\
-  options_ok (render (cfg0 [47])) = true.
+  options_ok (render (cfg0 [47])) = true /\ model_ctx_safe cfg_both_w = true /\ known_class cfg_both_w = 2.
 Proof. repeat split; vm_compute; reflexivity. Qed.
 
 (* non-vacuity: a configuration with every optional setting (but not both maps)
@@ -180,5 +270,6 @@ Definition cfg_full : config :=
   {| c_endpoint := [47; 103; 113; 108]; c_sub := Some [47; 119; 115]; c_version := [51; 46; 57];
      c_headers := Some [([65; 117; 116; 104], [66; 101; 97; 114; 101; 114; 32; 91; 116; 93]); ([233], [28450; 128512])];
      c_ws := None; c_title := Some [60; 47; 116; 105; 116; 108; 101; 62; 38; 39; 34; 92; 10]; c_cred := 1 |}.
-Lemma c34_nonvacuous : known_class cfg_full = 0 /\ page_ok cfg_full (render cfg_full) = true.
-Proof. split; vm_compute; reflexivity. Qed.
+Lemma c34_nonvacuous : known_class cfg_full = 0 /\ page_ok cfg_full (render cfg_full) = true /\
+  model_ctx_safe cfg_full = true.
+Proof. repeat split; vm_compute; reflexivity. Qed.
